@@ -36,3 +36,74 @@ contract(TR + "query_ast_visitor.visit_Call_Lambda", props=["C09", "C01"],
          ],
          ensures_raise={"*": [("frame_popped_on_failure@C09", "arg_frames == old(arg_frames)")]},
          loops={1: dict(modifies=[], invariant=[("L.depth", "arg_frames == old(arg_frames) + 1")])})
+# ---- obj[i]: bounds-checked element access on a collection, typed with the declared element type; anything else is refused ------------
+COLLV = P + "cpp_representation.cpp_collection"
+contract(TR + "query_ast_visitor.visit_Subscript", props=["C04", "C10", "C09"],
+         params=dict(self=QV, node=RefOf("ast.Subscript")),
+         requires=CVC_REQUIRES + [("parts", "field(node, 'value') != None and live(field(node, 'value')) and field(node, 'slice') != None and live(field(node, 'slice'))")],
+         modifies=CVC_MODIFIES + ["_expression", "_scope", "_cpp_type"], may_raise=["Exception"], strict=False,
+         local_sorts=dict(v=REP, index=REP, g_ix=Str), ghost_init=["g_ix = ''"],
+         ghost={"after:index = self.get_rep(node.slice)": ["g_ix = expr_text(index)"]},
+         ensures=CVC_ENSURES + [
+             ("only_collections_are_indexed@C09,C10", "isinst(final_v, '" + COLLV + "')"),
+             ("bounds_checked_access@C04", "rep_of(node) != None and is_new(rep_of(node)) and cls_is(rep_of(node), '" + CVAL + "') and "
+                                           "implies(field(type_of(final_v), '_p_depth') >= 0, expr_of(rep_of(node)) == "
+                                           "member_access(expr_of(final_v), field(type_of(final_v), '_p_depth')) + 'at(' + final_g_ix + ')')"),
+             ("element_type_as_declared@C10", "type_of(rep_of(node)) == field(type_of(final_v), '_element_type')"),
+             ("valid_here@C01", "seq_eq(stack_of(scope_of(rep_of(node))), cursor(self))"),
+         ])
+
+
+def expr_text(r):
+    "C++ text of a value representation (as_cpp)"
+    return field(r, "_expression", "func_adl_xAOD.common.cpp_representation.cpp_value")
+# ---- obj.member / namespace.enum.value -----------------------------------------------------------------------------------------------
+NSI = "func_adl_xAOD.common.cpp_types.NameSpaceInfo"
+ENI = "func_adl_xAOD.common.cpp_types.ENumInfo"
+field("_ns", RefOf(NSI))
+field("_enum", RefOf(ENI))
+field("ns_name", Str)
+field("names_spaces", TDict(Str, RefOf(NSI)))
+field("enums", TDict(Str, RefOf(ENI)))
+field("parent_ns", RefOf(NSI))
+field("name", Str, cls=ENI)
+field("values", TList(Str), cls=ENI)
+field("ns", RefOf(NSI), cls=ENI)
+uninterpreted("ns_text", [Ref], Str)
+contract(NSI + ".full_name", assumed=True, pure_fn="ns_text", params=dict(self=RefOf(NSI)), result=Str,
+         note="DEFINITION of the ghost function ns_text: the dotted name of a namespace (recursive over parent_ns; namespace objects are not "
+              "mutated after define_ns created them)")
+CPPNS = P + "cpp_representation.cpp_namespace"
+CPPEN = P + "cpp_representation.cpp_enum"
+TEV = "func_adl_xAOD.common.cpp_types.terminal_enum_value"
+contract(TR + "query_ast_visitor.visit_Attribute", props=["C10", "C09"],
+         params=dict(self=QV, node=RefOf("ast.Attribute")),
+         requires=CVC_REQUIRES + [("object", "field(node, 'value', 'ast.Attribute') != None and live(field(node, 'value', 'ast.Attribute'))")],
+         modifies=CVC_MODIFIES + ["_expression", "_scope", "_cpp_type", "_type", "_p_depth", "_is_const", "_tree_type", "_ns", "_enum"],
+         may_raise=["Exception"], strict=False,
+         local_sorts=dict(obj=REP, m_info=MethodInvokeInfo, g_decl=Bool, g_info=MethodInvokeInfo, g_depth=Int, g_expr=Str),
+         ghost_init=["g_decl = False", "g_info = any_value(MethodInvokeInfo)", "g_depth = 0", "g_expr = ''"],
+         ghost={"after:m_info = determine_type_mf(": [
+             "g_decl = declared(kind_of(obj), field(node, 'attr'))", "g_info = g_method_type_dict[kind_of(obj)][field(node, 'attr')]",
+             "g_depth = field(type_of(obj), '_p_depth')", "g_expr = expr_of(obj)"]},
+         ensures=CVC_ENSURES + [
+             ("has_rep", "rep_of(node) != None and is_new(rep_of(node))"),
+             ("member_of_an_enum_value_is_refused@C09,C10", "not (isinst(final_obj, '" + CVAL + "') and isinst(type_of(final_obj), '" + TEV + "'))"),
+             ("declared_member_type_honoured@C10", "implies(isinst(final_obj, '" + CVAL + "') and final_g_decl, type_of(rep_of(node)) == final_g_info.r_type)"),
+             ("access_path_uses_total_indirection@C10",
+              "implies(isinst(final_obj, '" + CVAL + "') and final_g_decl and final_g_depth >= 0 and final_g_info.deref_depth >= 0, expr_of(rep_of(node)) == "
+              "member_access(final_g_expr, final_g_info.deref_depth + final_g_depth) + field(node, 'attr'))"),
+             ("undeclared_member_is_a_double@C10", "implies(isinst(final_obj, '" + CVAL + "') and not final_g_decl and final_g_depth >= 0, kind_of(rep_of(node)) == 'double' and "
+                                                   "expr_of(rep_of(node)) == member_access(final_g_expr, final_g_depth) + field(node, 'attr'))"),
+             ("namespace_member_is_a_declared_namespace_or_enum@C10,C09",
+              "implies(isinst(final_obj, '" + CPPNS + "'), "
+              "(cls_is(rep_of(node), '" + CPPNS + "') and field(node, 'attr') in field(field(final_obj, '_ns'), 'names_spaces') and "
+              " field(rep_of(node), '_ns') == field(field(final_obj, '_ns'), 'names_spaces')[field(node, 'attr')]) or "
+              "(cls_is(rep_of(node), '" + CPPEN + "') and field(node, 'attr') in field(field(final_obj, '_ns'), 'enums') and "
+              " field(rep_of(node), '_enum') == field(field(final_obj, '_ns'), 'enums')[field(node, 'attr')]))"),
+             ("enum_value_is_declared_and_fully_qualified@C10,C09",
+              "implies(isinst(final_obj, '" + CPPEN + "'), contains(field(field(final_obj, '_enum'), 'values', '" + ENI + "'), field(node, 'attr')) and "
+              "cls_is(rep_of(node), '" + CVAL + "') and isinst(type_of(rep_of(node)), '" + TEV + "') and "
+              "expr_of(rep_of(node)) == replace(ns_text(field(field(final_obj, '_enum'), 'ns', '" + ENI + "')) + '::' + field(node, 'attr'), '.', '::'))"),
+             ("anything_else_is_refused@C09", "isinst(final_obj, '" + CVAL + "') or isinst(final_obj, '" + CPPNS + "') or isinst(final_obj, '" + CPPEN + "')"),
+         ])
